@@ -10,7 +10,8 @@
    [eval_plain ROps e x i] is entry i of the plain numpy evaluation of the same tree. *)
 From Coq Require Import Reals ZArith List Lra.
 From Coquelicot Require Import Coquelicot.
-From PP Require Import Model.C01 Model.C01R Proofs.C01 Proofs.C01_fun Proofs.C01_comp.
+From PP Require Import Model.C01 Model.C01R Model.C01X Proofs.C01 Proofs.C01_fun Proofs.C01_comp
+  Proofs.C01_lin Proofs.C01X.
 Import ListNotations.
 Open Scope R_scope.
 
@@ -166,4 +167,65 @@ Proof.
     + intros j Hj. simpl in Hj. destruct Hj as [<-|[<-|[]]]; simpl; split; try exact I; lra.
     + unfold l2_val, sumsq, block, max_plain, lin_plain. simpl.
       rewrite E, !np_abs_pos by lra. lra.
+Qed.
+
+(* ---------------------------------------------------------------- second round *)
+
+(* The derivative part of the rule table is linear in the direction (every tree, every
+   point, no smoothness needed): the table defines a Jacobian MATRIX. *)
+Theorem C01_jacobian_linear :
+  forall (e : expr R) (x v w : env (T:=R)) (a b : R) (i : nat),
+    snd (eval_ad ROps e x (lincomb a b v w) i)
+    = a * snd (eval_ad ROps e x v i) + b * snd (eval_ad ROps e x w i).
+Proof. exact linear_thm. Qed.
+Print Assumptions C01_jacobian_linear.
+
+(* Matrix form: along any finite combination  sum_j c_j d_j  of directions the plain
+   evaluation is differentiable with derivative  sum_j c_j * (Jacobian row i applied to
+   d_j); with the d_j unit vectors this is row i of the Jacobian matrix times the
+   coefficient vector. *)
+Theorem C01_jacobian_matrix :
+  forall (e : expr R) (x : env (T:=R)) (i : nat) (cs : list (R * env (T:=R))),
+    smooth e x i ->
+    is_derive (fun t => eval_plain ROps e (shift x (comb cs) t) i) 0
+      (fold_right (fun cd acc => fst cd * snd (eval_ad ROps e x (snd cd) i) + acc) 0 cs).
+Proof.
+  intros e x i cs Hs. rewrite <- matrix_thm. apply jacobian_thm. exact Hs.
+Qed.
+Print Assumptions C01_jacobian_matrix.
+
+(* safe_power(power, zero_val, tol, var) (after the repair of its Jacobian): away from the
+   switch |x| = tol the factor is the derivative of the value, for any differentiable
+   argument *)
+Theorem C01_rule_safe_power :
+  forall (p : pexp R) (zv tol : R) (u : R -> R) (t du : R),
+    is_derive u t du -> sp_smooth p tol (u t) ->
+    is_derive (fun s => sp_val ROps p zv tol (u s)) t
+              (snd (d_safe_power ROps p zv tol (u t, du))).
+Proof. exact rule_safe_power. Qed.
+Print Assumptions C01_rule_safe_power.
+
+(* a[idx] = b: every row of the result is row k of b (idx[k] = i, last such k) or row i of
+   a when i is not assigned; holds for (value, derivative) pairs alike *)
+Theorem C01_setitem_rows :
+  forall (A : Type) (idx : list nat) (a b : nat -> A) (i : nat),
+    (exists k, set_rows idx a b i = b k /\ nth_error idx k = Some i) \/
+    (set_rows idx a b i = a i /\ ~ In i idx).
+Proof. exact @set_rows_cases. Qed.
+Print Assumptions C01_setitem_rows.
+
+Example C01_round2_nonvacuous :
+  sp_smooth (PZ (-1)) (1 / 1000) 2 /\ sp_smooth (PR (1 / 2)) (1 / 1000) 2 /\
+  sp_smooth (PZ 2) (1 / 1000) 0 /\
+  snd (d_safe_power ROps (PZ (-1)) 7 (1 / 1000) (2, 1)) = - / 4 /\
+  set_rows [1; 0; 1]%nat (fun i => (10 + i)%nat) (fun k => (20 + k)%nat) 1%nat = 22%nat.
+Proof.
+  split; [|split; [|split; [|split]]].
+  - unfold sp_smooth. rewrite Rabs_right by lra. repeat split; try lra; try (intros; exact I).
+  - unfold sp_smooth. rewrite Rabs_right by lra. repeat split; try lra; try (intros; lra).
+  - unfold sp_smooth. rewrite Rabs_R0. repeat split; try lra; try (intros; exact I).
+  - unfold d_safe_power, sp_fac. rewrite np_abs_Rabs. cbn [fst snd oltb ROps].
+    rewrite ltbR_true by (rewrite Rabs_right; lra).
+    unf. change (-1 - 1)%Z with (-2)%Z. rewrite pz_m2. field.
+  - reflexivity.
 Qed.
